@@ -599,9 +599,16 @@ pub fn gen_ctx(rng: &mut Rng, mdc_keys: &[String]) -> RecCtx {
             mdc.insert(k.clone(), gen_text(rng, 3));
         }
     }
+    let mut message = gen_text(rng, 5);
+    if rng.chance(1, 25) {
+        // long text: crosses the buffers of any intermediate writer
+        let len = *rng.pick(&[255usize, 256, 257, 1023, 1024, 1025, 5000]);
+        let c = *rng.pick(&['m', 'é', '𝄞']);
+        message.extend(std::iter::repeat(c).take(len));
+    }
     RecCtx {
         level: *rng.pick(&crate::routing::LEVELS),
-        message: gen_text(rng, 5),
+        message,
         target: gen_text(rng, 3),
         module: opt(rng),
         file: opt(rng),
